@@ -154,6 +154,8 @@ class _TS(Rule):
             rs = spec.delta(rs, ev)
             if self.moved_whole(t['args'][argi], holder):
                 holder = t['dest']['l'] if (not t['dest']['p'] and contains_adt(b, t['dest']['l'], spec.adt)) else None
+            elif ev in getattr(spec, 'rebind', ()) and not t['dest']['p'] and contains_adt(b, t['dest']['l'], spec.adt):
+                holder = t['dest']['l']         # a wrapper around a borrow of the resource: what is done to the wrapper is done to it
             return (holder, rs)
         d = callee_def(t)
         by_value = self.moved_whole(t['args'][argi], holder)
